@@ -23,7 +23,9 @@ HARNESS = os.path.join(ROOT, "harness")
 # the repository under test; VERIF_REPO lets a background exploration run use a snapshot
 # (the registered checks always run against /repo itself)
 REPO = os.environ.get("VERIF_REPO", "/repo")
-EVID = os.path.join(ROOT, "evidence")
+# VERIF_EVIDENCE_DIR: used by the seeded-change tooling so that runs against a deliberately broken
+# tree never overwrite the evidence of /repo itself
+EVID = os.environ.get("VERIF_EVIDENCE_DIR") or os.path.join(ROOT, "evidence")
 REPLAYS = os.path.join(ROOT, "replays")
 KNOWN = os.path.join(ROOT, "known_findings.json")
 NSHARDS = max(1, min(16, os.cpu_count() or 1))
